@@ -83,6 +83,39 @@ func c12common(c *h.Ctx, name string, in, out []orb.Point, what string) bool {
 }
 
 func c12genLine(r *h.Rand) orb.LineString {
+	if r.P(1, 14) {
+		// closed vertex lists enclosing no area: out and back along one line, one point repeated, a symmetric bow tie
+		ox, oy := float64(r.Range(-20, 20)), float64(r.Range(-20, 20))
+		switch r.Intn(3) {
+		case 0:
+			k := r.Range(2, 6)
+			dx, dy := float64(r.Range(-3, 3)), float64(r.Range(-3, 3))
+			if dx == 0 && dy == 0 {
+				dx = 1
+			}
+			var ls orb.LineString
+			for i := 0; i <= k; i++ {
+				ls = append(ls, orb.Point{ox + float64(i)*dx, oy + float64(i)*dy})
+			}
+			for i := k - 1; i >= 0; i-- {
+				ls = append(ls, orb.Point{ox + float64(i)*dx, oy + float64(i)*dy})
+			}
+			return ls
+		case 1:
+			ls := make(orb.LineString, r.Range(2, 9))
+			for i := range ls {
+				ls[i] = orb.Point{ox, oy}
+			}
+			return ls
+		default:
+			a, b := float64(r.Range(1, 9)), float64(r.Range(1, 9))
+			ls := orb.LineString{{ox, oy}, {ox + a, oy + b}, {ox + a, oy}, {ox, oy + b}, {ox, oy}}
+			if r.Bool() {
+				ls = orb.LineString{{ox, oy}, {ox + a/2, oy + b/2}, {ox + a, oy + b}, {ox + a, oy}, {ox + a/2, oy + b/2}, {ox, oy + b}, {ox, oy}}
+			}
+			return ls
+		}
+	}
 	n := r.Range(0, 40)
 	if r.P(1, 10) {
 		n = r.Range(40, 200)
